@@ -2,6 +2,8 @@
 (***************************************************************************)
 (* Judges observations of the real create_range_space (space rows and the  *)
 (* index function on every vector of the box enlarged by one unit) against *)
+(* RangeSpaceOps; boxes too large to list are observed on sampled rows and *)
+(* sampled query vectors (o.sampled).                                      *)
 (* RangeSpaceOps.  One behaviour per observed box: new -> space -> index.  *)
 (***************************************************************************)
 EXTENDS Integers, Sequences, FiniteSets, TLC, Json, IOUtils
@@ -22,7 +24,9 @@ Reject(clause, detail) == /\ verdict' = "rejected"
 CheckSpace ==
   /\ step = "new" /\ verdict = "running"
   /\ LET o == Obs[tid] IN
-     IF ~R!SpaceOK(o.mins, o.maxs, o.space)
+     IF o.sampled /\ ~R!SampledSpaceOK(o.mins, o.maxs, o.nrows, o.rows, o.space)
+     THEN Reject("space (sampled rows of a large box): size or a sampled row differs from row-major order", o.nrows)
+     ELSE IF ~o.sampled /\ ~R!SpaceOK(o.mins, o.maxs, o.space)
      THEN Reject("space: not every integer vector of the box exactly once in row-major order", 0)
      ELSE step' = "space" /\ UNCHANGED <<tid, verdict>>
 
@@ -30,7 +34,8 @@ CheckIndex ==
   /\ step = "space" /\ verdict = "running"
   /\ LET o == Obs[tid]
          bad == {k \in 1..Len(o.queries) :
-                   ~R!IndexOK(o.mins, o.maxs, o.space, o.queries[k], o.idx[k])}
+                   IF o.sampled THEN ~R!SampledIndexOK(o.mins, o.maxs, o.nrows, o.queries[k], o.idx[k])
+                   ELSE ~R!IndexOK(o.mins, o.maxs, o.space, o.queries[k], o.idx[k])}
          badIn == {k \in bad : R!InBox(o.mins, o.maxs, o.queries[k])}
      IN
      IF badIn # {}
